@@ -440,6 +440,7 @@ type UnitSpec struct {
 	Ensures  []*Clause
 	Modifies []string // heap classes; nil+ModAll => everything
 	Preserves []string // with no modifies clause: everything is havoced except these classes
+	FrameAssumed bool  // the preserves frame of a verified unit is trusted, not proved
 	ModSet   bool     // a modifies/pure line was given
 	Pure     bool
 	Loops    map[int]*LoopSpec
@@ -673,6 +674,14 @@ func ParseContracts(path, pkgName, src string) (*ContractFile, error) {
 				}
 			case "preserves":
 				cur.Preserves = append(cur.Preserves, strings.Fields(strings.ReplaceAll(rest, ",", " "))...)
+			case "frame-assumed":
+				// frame-assumed preserves A, B: the frame callers may rely on is taken on trust for this (verified) unit
+				f := strings.Fields(strings.ReplaceAll(rest, ",", " "))
+				if len(f) < 2 || f[0] != "preserves" {
+					return nil, fmt.Errorf("%s: frame-assumed needs 'preserves ...'", where)
+				}
+				cur.Preserves = append(cur.Preserves, f[1:]...)
+				cur.FrameAssumed = true
 			case "pure":
 				cur.ModSet = true
 				cur.Pure = true
